@@ -4,6 +4,7 @@ package main
 
 import (
 	"context"
+	"encoding/json"
 	"fmt"
 	"net/http"
 	"net/http/httptest"
@@ -204,6 +205,34 @@ func main() {
 		)
 	}
 	deadline := time.Now().Add(time.Duration(run.Pick(100, 1500)) * time.Second)
+	if rp := replayArg(); rp != "" {
+		var rf struct {
+			Replay struct {
+				Scenario string `json:"scenario"`
+				Choices  []int  `json:"choices"`
+			} `json:"replay"`
+		}
+		b, err := os.ReadFile(rp)
+		if err != nil || json.Unmarshal(b, &rf) != nil {
+			vlib.Fatal("cannot read replay file %s", rp)
+		}
+		for _, sc := range scenarios {
+			if sc.name == rf.Replay.Scenario || "handler: "+sc.name == rf.Replay.Scenario {
+				out, trace := vsched.Replay(sc.build, vsched.Options{MaxSteps: 4000}, rf.Replay.Choices)
+				for _, l := range trace {
+					fmt.Println("  " + l)
+				}
+				fmt.Println("outcome:", out)
+				if out != "ok" {
+					fmt.Printf("VIOLATION property=%s replay=%s\n", run.ID, rp)
+					os.Exit(1)
+				}
+				os.Exit(0)
+			}
+		}
+		vlib.Fatal("scenario %q of the replay file is not part of this tier", rf.Replay.Scenario)
+	}
+
 	execs, points, states := 0, 0, 0
 	outcomes := map[string]int{}
 	var per []map[string]any
@@ -268,4 +297,13 @@ func main() {
 	}
 	_ = os.Stdout
 	run.Finish(execs, nontrivial, "every schedule of each scenario with at most B deviations (preemptions, non-default select/map-order/timer choices), iterated from 0; distinct schedules by construction; non-trivial = schedule with at least one deviation from the default")
+}
+
+func replayArg() string {
+	for i, a := range os.Args {
+		if a == "--replay" && i+1 < len(os.Args) {
+			return os.Args[i+1]
+		}
+	}
+	return ""
 }
